@@ -426,6 +426,28 @@ func normWidths(s string) string {
 }
 
 func c08Append(p *core.Prog, r *core.Report) {
+	// the fragments the relay rebuilds for an arg2 append carry the caller's
+	// flags byte itself (all eight bits), not a re-derived subset
+	if f := mustFunc(p, r, "", "relayFragmentSender", "newFragment"); f != nil {
+		payloadF := p.Field("", "Frame", "Payload")
+		n, ok := 0, true
+		for _, c := range core.CallsIn(f, "typed.ByteRef.Update") {
+			n++
+			args := core.CallArgs(c)
+			good := false
+			if ld, isLd := args[len(args)-1].(*ssa.UnOp); isLd {
+				if ia, isIA := ld.X.(*ssa.IndexAddr); isIA && core.LoadedField(ia.X) == payloadF {
+					if k, isK := core.ConstInt(ia.Index); isK && k == 0 {
+						good = true
+					}
+				}
+			}
+			if !good {
+				ok = false
+			}
+		}
+		r.Check(ok && n > 0, "C08-R5", fname(f), "rebuilt fragments carry the caller's flags byte", p.Pos(f.Pos()), "flagsRef.Update(callReq.Payload[_flagsIndex])", "the flags byte of the fragments rebuilt for an arg2 append is not the caller's byte (bits other than more-fragments are lost): the call req is not forwarded unchanged")
+	}
 	f := mustFunc(p, r, "", "", "writeArg2WithAppends")
 	if f != nil {
 		arg2 := f.Params[1]
